@@ -136,10 +136,15 @@ def main(args):
         ok, rep = sensitivity(what[1:] or None)
         return 0 if ok else 1
     ok, rep = determinism(props, QUICK_RUNS if args.quick else FULL_RUNS)
-    out = os.path.join(driver.OUT, 'selftest.json')
+    # the quick variant (run by setup_cmd) reports under out/; the full one is
+    # kept as /verif/selftest_result.json and quoted in every evidence file
+    out = os.path.join(driver.OUT, 'selftest.json') if args.quick else os.path.join(driver.VERIF, 'selftest_result.json')
     os.makedirs(driver.OUT, exist_ok=True)
     with open(out, 'w') as fp:
-        json.dump({'determinism': rep, 'quick': bool(args.quick)}, fp, indent=1)
+        json.dump({'determinism': rep, 'quick': bool(args.quick), 'all_identical': ok,
+                   'method': 'same seeds executed 3 times: 16 worker threads, 3 worker threads, and with the harness '
+                             'process under PYTHONHASHSEED=4242; per-world digests of the canonical event logs compared'},
+                  fp, indent=1, sort_keys=True)
     print('selftest %s' % ('OK' if ok else 'FAILED'))
     return 0 if ok else 1
 
